@@ -611,10 +611,11 @@ func (w *Worker) intrinsic(s *State, f *Frame, name string, fn *ssa.Function, ar
 		return adv(nil)
 	case name == "runtime.NumCPU", name == "runtime.GOMAXPROCS":
 		return adv(BV(64, 4))
-	case strings.HasPrefix(name, "math."):
+	case strings.HasPrefix(name, "math.") && name != "math.init":
 		if v, ok := w.mathFn(s, name[5:], args); ok {
 			return adv(v)
 		}
+		unsupported("math function %s on these operands is not modelled", name)
 	case name == "(*sync/atomic.Value).Store":
 		s.store(args[0].(Ptr).field(0), args[1])
 		return adv(nil)
@@ -653,9 +654,9 @@ func sameObject(a, b Value) *Term {
 }
 
 func (w *Worker) mathFn(s *State, fn string, args []Value) (Value, bool) {
-	un := map[string]string{"Ceil": "fp.ceil", "Floor": "fp.floor", "Abs": "fp.abs", "Trunc": "fp.trunc", "Sqrt": "fp.sqrt", "RoundToEven": "fp.rne"}
+	un := map[string]string{"Ceil": "fp.ceil", "Floor": "fp.floor", "Abs": "fp.abs", "Trunc": "fp.trunc", "Sqrt": "fp.sqrt", "RoundToEven": "fp.rne", "Round": "fp.rna"}
 	switch fn {
-	case "Ceil", "Floor", "Abs", "Trunc", "Sqrt", "RoundToEven":
+	case "Ceil", "Floor", "Abs", "Trunc", "Sqrt", "RoundToEven", "Round":
 		switch x := args[0].(type) {
 		case FInt:
 			if fn == "Sqrt" {
@@ -679,7 +680,7 @@ func (w *Worker) mathFn(s *State, fn string, args []Value) (Value, bool) {
 			switch fn {
 			case "Floor", "Trunc":
 				return FInt{x.fl}, true
-			case "Ceil":
+			case "Ceil", "Round": // value = floor + 0.5*frac: half rounds away from zero (non-negative values)
 				return FInt{fcmpCeil(x)}, true
 			case "Abs":
 				return x, true
